@@ -368,6 +368,14 @@ class Key(DescriptorBase):
         )
         return type(self)(self.key, self.origin, der, self.taproot)
 
+    def with_key_flag(self, taproot):
+        """This key if its taproot flag is already set like that, otherwise a re-flagged copy"""
+        if self.taproot == taproot:
+            return self
+        return type(self)(
+            self.key, self.origin, self.allowed_derivation, taproot, self.xonly_repr
+        )
+
     @property
     def is_wildcard(self):
         return self.allowed_derivation.is_wildcard if self.allowed_derivation else False
